@@ -34,6 +34,31 @@ def cases(tier, seed, args):
 
 def run_case(case):
     t = case['t']
+    if t == 'reshape':
+        shape = [1 if x == '1' else case['sizes'][case['names'].index(x)] for x in case['src']]
+        n = int(np.prod(shape)) if shape else 1
+        arr = (np.arange(1, n + 1).reshape(shape)).astype(case['dtype'])
+        if case['layout'] == 'F':
+            arr = np.asfortranarray(arr)
+        elif case['layout'] == 'strided' and arr.ndim >= 1:
+            big = np.zeros([2 * d for d in arr.shape], dtype=arr.dtype)
+            view = big[tuple(slice(None, None, 2) for _ in arr.shape)]
+            view[...] = arr
+            arr = view
+        before = arr.copy()
+        out, exc = call(pu.reshape, arr, case['op'])
+        if not np.array_equal(before, arr):
+            exc = 'InputMutated'
+        ok = out is not None and np.all(np.asarray(out) == np.rint(np.real(out))) and np.all(np.imag(out) == 0)
+        return [dict(kind='reshape', src=case['src'], tgt=case['tgt'], names=case['names'], sizes=case['sizes'], op=case['op'],
+                     exc=exc if (out is None or ok) else 'NonIntegral',
+                     out_shape=[] if out is None else [int(x) for x in np.shape(out)],
+                     out=[] if out is None else [int(x) for x in np.real(np.asarray(out)).ravel()],
+                     same_dtype=bool(out is not None and np.asarray(out).dtype == arr.dtype),
+                     fp=f'fn=reshape;layout={case["layout"]};dtype={case["dtype"]}')]
+    if t == 'reshape_reject':
+        out, exc = call(pu.reshape, np.zeros((2, 3)), case['op'])
+        return [dict(kind='reshape_reject', op=case['op'], exc=exc, fp='fn=reshape;reject')]
     if t == 'unsqueeze':
         a = np.arange(int(np.prod(case['shape']))).reshape(case['shape']) if case['shape'] else np.array(7)
         out, exc = call(pu.unsqueeze, a, tuple(case['axes']))
